@@ -46,6 +46,7 @@ type Finding struct {
 	Model     smt.Model
 	Solver    string
 	Decisions []int
+	Trace     []string
 }
 
 type Exec struct {
@@ -100,6 +101,7 @@ type Exec struct {
 	signedMsgs   map[*ArrObj]*SignedMsg
 	initDone     map[*ssa.Package]bool
 	merging      bool
+	trace        []string
 	mergeCellMark int
 }
 
@@ -250,6 +252,7 @@ func (ex *Exec) choose(conds []*smt.Term) int {
 		d := ex.decisions[ex.dpos]
 		ex.dpos++
 		ex.taken = append(ex.taken, d)
+		ex.note(d, 0)
 		ex.assume(conds[d])
 		return d
 	}
@@ -268,8 +271,19 @@ func (ex *Exec) choose(conds []*smt.Term) int {
 	}
 	d := feas[0]
 	ex.taken = append(ex.taken, d)
+	ex.note(d, len(feas))
 	ex.assume(conds[d])
 	return d
+}
+
+func (ex *Exec) note(d, nfeas int) {
+	if ex.merging {
+		return
+	}
+	ex.trace = append(ex.trace, fmt.Sprintf("%s:%d/%d", ex.curPos, d, nfeas))
+	if len(ex.trace) > 600 {
+		ex.trace = ex.trace[300:]
+	}
 }
 
 func (ex *Exec) branch(c *smt.Term) bool {
@@ -418,6 +432,8 @@ func (ex *Exec) global(g *ssa.Global) *Cell {
 	return c
 }
 
+var traceCalls = os.Getenv("GSX_TRACE") == "calls"
+
 const maxDepth = 200
 
 func (ex *Exec) callFunction(fn *ssa.Function, args []Value) Value {
@@ -468,6 +484,12 @@ func (ex *Exec) callFunction(fn *ssa.Function, args []Value) Value {
 		if r, ok := ex.mergedCall(fn, args); ok {
 			return r
 		}
+	}
+	if traceCalls && ex.P.isTarget(pkgPath) && ex.depth < 8 {
+		fmt.Fprintf(os.Stderr, "%*scall %s\n", ex.depth*2, "", name)
+		r := ex.interpret(fn, args)
+		fmt.Fprintf(os.Stderr, "%*sret  %s = %.200s\n", ex.depth*2, "", name, describe(r))
+		return r
 	}
 	return ex.interpret(fn, args)
 }
@@ -624,6 +646,14 @@ func describe(v Value) string {
 		return fmt.Sprintf("<%s %v>", x.Kind, x.Data)
 	case BigVal:
 		return "big(" + x.I.String() + ")"
+	case Tuple:
+		r := "("
+		for _, e := range x {
+			r += describe(e) + ", "
+		}
+		return r + ")"
+	case nil:
+		return "<void>"
 	}
 	return fmt.Sprintf("%T", v)
 }
